@@ -192,7 +192,7 @@ def prep_spec(run, sub="core"):
         # the catalogue of loadable documents is part of the specification: TLC renders it, the harness loads these texts
         cfg = scenario_cfg(dict(fix="F0", depth=1, ops=[], elems=[], named=[], names=[]), False, False, []).replace("Depth = 1", "Depth = 0")
         open(os.path.join(d, "docs.cfg"), "w").write(cfg)
-        r = run_tlc_retry(d, "MC_fixtures.tla", "docs.cfg", 1, 600)
+        r = run_tlc(d, "MC_fixtures.tla", "docs.cfg", 1, 600)
         docs = [decode_tagged(l)[1][0] for l in r["tagged"] if l.startswith('<<"DOCS"')]
         if not docs:
             raise RuntimeError("the document catalogue could not be rendered: %s" % (r["errors"] or r["log"][-5:]))
@@ -234,8 +234,8 @@ SCENARIOS = {
                  named=["SYSTEM-SIGNAL"], names=["s", "s1", "b", "p"], pos=[], wild=False),
     "files": dict(fix="F3", depth=2, tdepth=3, ops=["CreateFile", "RemoveFile", "AddToFile", "RemoveFromFile", "Remove", "CreateNamed", "CreateSub", "Move", "Copy"],
                   elems=["ELEMENTS"], named=["AR-PACKAGE", "SYSTEM-SIGNAL"], names=["a", "d"], pos=[], wild=False, files=["f1", "f3"], vers=["V50"], ser=True),
-    "merge": dict(fix="F5", depth=3, tdepth=3, ops=["Load", "CreateFile", "AddToFile", "RemoveFromFile", "RemoveFile"], elems=[], named=[], names=["a"],
-                  pos=[], wild=False, files=["f3"], vers=["V50"], docs=["pb", "pe", "pr", "pn", "po", "px"], ser=True),
+    "merge": dict(fix="F5", depth=3, tdepth=3, ops=["Load", "CreateFile", "AddToFile", "RemoveFromFile", "RemoveFile", "Duplicate"], elems=[], named=[], names=["a"],
+                  pos=[], wild=False, files=["f3"], vers=["V50"], docs=["pb", "pe", "pr", "pn", "po", "px", "pf", "cd", "cf", "dupk", "pv"], ser=True),
     "copy": dict(fix="F4", depth=2, tdepth=2, ops=["Copy", "Duplicate", "SetAttr", "RemoveAttr", "Rename", "Remove", "SetComment"],
                  elems=[], named=[], names=["a", "b"], pos=[0], wild=False, ser=True),
 }
